@@ -16,8 +16,8 @@
 
   for every network, any depth of the `singular_coords` recursion, stale index fields of earlier calls included
   (`pe_final`, `assemble_fresh`: the last inner call is the pass from the cleared state on every cleared unknown).
-  `C05_pe_matrix_is_jacobian` says the same of the matrix `(toProblem np).A` of the C01 theorems (`NoAlias`:
-  no repeated column — the overwrite semantics of `Problem.dense`).
+  `C01_pe_matrix_is_jacobian` (`Props/C01/ProjectEquationsMatrix.lean`) says the same of the matrix `(toProblem np).A` of the C01 theorems (no `NoAlias`
+  since round 12: `Problem.dense` adds up repeated columns, like the C++).
 -/
 import Gama.Lemmas.ProjectEquationsJacobian
 import Gama.Lemmas.ProjectEquationsExample
